@@ -19,6 +19,10 @@ for p in props:
     man = cfg.get("manifest")
     if not man or not man.get("claim", True):
         continue
+    # claim a property only once its check has run clean at least once in this tree
+    evp = os.path.join(ROOT, "evidence", pid + ".json")
+    if not os.path.exists(evp) or json.load(open(evp)).get("violations", 1) != 0:
+        continue
     claimed.append(pid)
     checks.append({
         "property_id": pid,
